@@ -16,5 +16,5 @@ TNext == /\ ~IsBad(c)
          /\ c' = CNext(c, Trace[l + 1])
          /\ l' = l + 1
 TSpec == TInit /\ [][TNext]_<<l, c>>
-NotBad == ~IsBad(c)
+Report == IF IsBad(c) THEN RejectLine(l, c.why) ELSE TRUE
 =============================================================================
